@@ -75,6 +75,19 @@ func (p *Validator) ValidateReader(r io.Reader) error {
 		}
 		eof = true
 	}
+	// A short first read must not hide a BOM: read on until it can be told.
+	for !eof && 0 < cnt && cnt < 4 && buf[0] == 0xEF {
+		var n int
+		n, err = r.Read(buf[cnt:cap(buf)])
+		cnt += n
+		buf = buf[:cnt]
+		if err != nil {
+			if !errors.Is(err, io.EOF) {
+				return err
+			}
+			eof = true
+		}
+	}
 	var skip int
 	// Skip BOM if present.
 	if 3 < len(buf) && buf[0] == 0xEF && buf[1] == 0xBB && buf[2] == 0xBF {
